@@ -256,6 +256,33 @@ def replay(run, pid, behs, seed, limit=None):
         run.sample({"file_as_class_symbols": "".join(b["text"]), "commands": [[c["name"], [a["t"] for a in c["args"]]] for c in b["cmds"]]})
 
 
+def big_file_check(run):
+    """Files larger than any plausible read buffer whose arguments are full of 2-, 3- and 4-byte characters, in four
+    byte alignments: accepted, with every argument text exactly as written (C05: argument boundaries, whatever the
+    byte offset a character falls on)."""
+    for shift in range(4):
+        parts = ["#" + "x" * shift + "\n"]
+        want = []
+        for i in range(48):
+            ch = ["\U0001F642", "\u6f22", "\u00e9", "\U0001D518"][i % 4]
+            arg = '"w%d %s"' % (i, ch * (300 + i))
+            uq = "u%d%s" % (i, ch * 3)
+            parts.append("cmd%d(%s %s)\n" % (i, arg, uq))
+            want.append(["cmd%d" % i, [arg, uq]])
+        text = "".join(parts)
+        cmds, exc, _ = real_parse(text)
+        run.count("bigfile-args:%d" % shift)
+        case = {"source_bytes": len(text.encode("utf-8")), "byte_shift": shift, "features": {"big_file": True, "nonascii": True}}
+        if exc is not None:
+            run.violation(case, "parse completes", exc, "a large valid UTF-8 file is rejected")
+            continue
+        got = [[c[0], [a[1] for a in c[2]]] for c in cmds]
+        if got != want:
+            bad = [[w[0], [x[:14] for x in g[1]]] for w, g in zip(want, got) if w != g][:3]
+            run.violation(case, "every argument as written", bad or [len(got), len(want)],
+                          "argument texts of a large UTF-8 file differ from the source")
+
+
 # ---------------------------------------------------------------- binding B: real token streams validated by TLC
 CORPUS = "/usr/share/cmake-3.25"
 
